@@ -118,6 +118,17 @@ func prefixUnit(format string, withFile bool, idx0 int64) func(c *Ctx) {
 						return
 					}
 					want = got // File is compared with Reader on the same bytes (C06), whatever Reader gives
+					if withFile {
+						// and so is every way of delivering these bytes: a sniffing reader that looks at
+						// "the first read" instead of "the first bytes" depends on how they arrive
+						for si, sizes := range [][]int{{1}, {2, 1}, {1, 2}, {3, 1}, {2}, {4}, {5, 1}} {
+							for _, eofWith := range []bool{false, true} {
+								if !compareScheduleE(k, cd, x, want, sizes, eofWith, []int{0, 2, 3}[si%3], fmt.Sprintf("chunks %v cycled (first field %q)", sizes, name)) {
+									return
+								}
+							}
+						}
+					}
 					plain := filepath.Join(dir, fmt.Sprintf("p%d%s", k.Idx, cd.ext))
 					if withFile && os.WriteFile(plain, x, 0o644) == nil && os.WriteFile(plain+".gz", gzipBytes(x, 6), 0o644) == nil {
 						for _, path := range []string{plain, plain + ".gz"} {
